@@ -69,11 +69,11 @@ TKill == /\ IsEvent("Kill")
          /\ Kill(Rec.reg, Rec.loc)
          /\ After(Tags("Kill", "-", "-", Rec.reg, Rec.loc)) /\ UNCHANGED tid
 TTrack == /\ IsEvent("Track")
-          /\ Env("Track", Rec.reg \in Trackable \ tracked)
+          /\ Env("Track", TrackOK(Rec.reg))
           /\ Track(Rec.reg)
           /\ After({}) /\ UNCHANGED tid
 TTeardown == /\ IsEvent("Teardown")
-             /\ Env("Teardown", Rec.reg \in tracked)
+             /\ Env("Teardown", Rec.reg \in Trackable)
              /\ Teardown(Rec.reg)
              /\ After(Tags("Teardown", "-", "-", Rec.reg, 0)) /\ UNCHANGED tid
 TRequest == /\ IsEvent("Request")
